@@ -97,6 +97,7 @@ type gateEnv struct {
 	port   int
 	conns  map[string]*rawConn
 	curLk  []string
+	fwd    string // forwarding headers to add to the next request
 }
 
 // inCidrAddr: an address inside each allowed CIDR (used to put nsqadmin into a row's pre-state and
@@ -240,6 +241,30 @@ type wireReq struct {
 	method, path, body string
 	hname, hval        string
 	hasHdr             bool
+	fwd                string // non-empty: the request also carries forwarding headers naming this address as its origin
+}
+
+// forwarding headers a proxy (or anybody) can put on a request; the /config gate is about the peer address of the
+// connection, whatever the request says about itself
+func fwdHeaders(addr string) [][2]string {
+	return [][2]string{{"X-Forwarded-For", addr + ", 203.0.113.7"}, {"X-Real-Ip", addr}, {"Forwarded", "for=\"" + addr + "\""},
+		{"X-Client-Ip", addr}, {"True-Client-Ip", addr}}
+}
+
+// an address whose membership in the allowed CIDR is the opposite of src's
+func otherSide(cidr, src string) string {
+	_, n, err := net.ParseCIDR(cidr)
+	ip := net.ParseIP(src)
+	if err != nil || ip == nil {
+		return ""
+	}
+	in := n.Contains(ip)
+	for _, c := range []string{"127.0.0.1", "10.1.2.3", "192.0.2.2", "::1", "fd00::2", "127.200.1.9", "198.51.100.9"} {
+		if o := net.ParseIP(c); o != nil && n.Contains(o) != in {
+			return c
+		}
+	}
+	return ""
 }
 
 func (e *gateEnv) viaSocket(src string, w wireReq) (int, []byte, error) {
@@ -257,6 +282,11 @@ func (e *gateEnv) viaSocket(src string, w wireReq) (int, []byte, error) {
 		fmt.Fprintf(&b, "%s %s HTTP/1.1\r\nHost: nsqadmin\r\n", w.method, w.path)
 		if w.hasHdr {
 			fmt.Fprintf(&b, "%s: %s\r\n", w.hname, w.hval)
+		}
+		if w.fwd != "" {
+			for _, h := range fwdHeaders(w.fwd) {
+				fmt.Fprintf(&b, "%s: %s\r\n", h[0], h[1])
+			}
 		}
 		if w.body != "" || w.method == "POST" || w.method == "PUT" || w.method == "DELETE" {
 			fmt.Fprintf(&b, "Content-Length: %d\r\n", len(w.body))
@@ -293,6 +323,11 @@ func (e *gateEnv) viaHandler(remoteAddr string, w wireReq) (int, []byte) {
 	if w.hasHdr {
 		// what net/http would hand to the handler: canonical key, value without surrounding whitespace
 		req.Header[http.CanonicalHeaderKey(w.hname)] = []string{strings.Trim(w.hval, " \t")}
+	}
+	if w.fwd != "" {
+		for _, h := range fwdHeaders(w.fwd) {
+			req.Header[h[0]] = []string{h[1]}
+		}
 	}
 	rec := httptest.NewRecorder()
 	e.direct.ServeHTTP(rec, req)
@@ -420,6 +455,7 @@ func (e *gateEnv) exec(row *GateRow) (*GateObs, error) {
 		}
 	}
 	w := e.wire(row.Req)
+	w.fwd = e.fwd
 	e.cell.takeLog()
 	obs := &GateObs{}
 	src := row.Req.Src
@@ -576,6 +612,7 @@ func judge(row *GateRow, obs *GateObs) *GateFinding {
 type GateReport struct {
 	Rows        int            `json:"rows"`
 	Executed    int            `json:"executed"`
+	Forwarded   int            `json:"forwarded_variants"` // /config rows repeated with forwarding headers naming the other side of the CIDR
 	Nontrivial  int            `json:"nontrivial"`
 	Configs     int            `json:"configs"`
 	ViaSocket   int            `json:"via_socket"`
@@ -689,6 +726,25 @@ func gateReplay(args []string) int {
 					if err == nil {
 						f = judge(row, obs2)
 						obs = obs2
+					}
+				}
+				// the same /config request once more, this time claiming (in every forwarding header there is) to come
+				// from the other side of the allowed CIDR: the answer is the row's, the gate looks at the connection
+				if f == nil && row.Req.Route == "config" && (row.Req.Method == "GET" || row.Req.Method == "PUT") && row.Cfg.Cidr != "" {
+					if o := otherSide(row.Cfg.Cidr, row.Req.Src); o != "" {
+						env.fwd = o
+						obs3, err := env.exec(row)
+						env.fwd = ""
+						if err == nil {
+							if f3 := judge(row, obs3); f3 != nil {
+								f3.What = "with forwarding headers (X-Forwarded-For, X-Real-Ip, Forwarded, ...) naming " + o + " as origin: " + f3.What
+								f3.Key = "forwarded:" + f3.Key
+								f, obs = f3, obs3
+							}
+							mu.Lock()
+							rep.Forwarded++
+							mu.Unlock()
+						}
 					}
 				}
 				mu.Lock()
